@@ -151,6 +151,7 @@ func c13(r *core.Run) {
 		c13Sentinel(r, s)
 	}
 	c13HTTP(r)
+	c13Parse(r)
 }
 
 func c13Whitelist(r *core.Run, v *ssa.Function, W map[string]bool) {
@@ -632,6 +633,68 @@ func c13Sentinel(r *core.Run, s *ssa.Function) {
 		r.Check(ok3 && n3 > 0, "C13.SENT", sn+"#success-needs-call-ok", ret.Pos(), "success only when the raw provider call succeeded", "the sentinel can answer although its provider call failed ("+core.FmtPath(p3)+")")
 	}
 	r.Floor("C13.SENT", "success returns in "+sn, nOK, 1)
+}
+
+// c13Parse: the provider's final answer becomes an LLMResult only through a whole-document decode
+// (json.Unmarshal rejects trailing data; a streaming Decoder.Decode stops after the first value).
+func c13Parse(r *core.Run) {
+	p := r.P
+	n := 0
+	for _, fn := range p.FuncsIn("internal/llm") {
+		rt := resultTypes(fn)
+		if len(rt) != 2 || !core.IsNamed(rt[0], modelsPath(p), "LLMResult") || !isErrorType(rt[1]) || len(fn.Params) != 1 || fn.Params[0].Type().String() != "string" {
+			continue
+		}
+		fnm := core.FuncName(fn)
+		for _, ret := range core.Returns(fn) {
+			if !core.IsNilConst(ret.Results[1]) {
+				continue
+			}
+			u, ok := ret.Results[0].(*ssa.UnOp)
+			if !ok {
+				continue
+			}
+			base := u.X
+			if _, isAlloc := base.(*ssa.Alloc); !isAlloc {
+				continue
+			}
+			n++
+			trailingTest := false
+			core.InstrsOf(fn, func(in2 ssa.Instruction) {
+				if c2 := core.CallOf(in2); c2 != nil && (core.CalleeName(c2) == "(*encoding/json.Decoder).More" || core.CalleeName(c2) == "(*encoding/json.Decoder).Token") {
+					trailingTest = true
+				}
+			})
+			pred := func(x ssa.Value) bool {
+				if c, ok := callTo(x, "encoding/json.Unmarshal"); ok && core.Unwrap(c.Call.Args[1]) == base {
+					return true
+				}
+				// a streaming decode counts only together with a trailing-data test (checked below)
+				c, ok := callTo(x, "(*encoding/json.Decoder).Decode")
+				return ok && trailingTest && core.Unwrap(c.Call.Args[1]) == base
+			}
+			ok2, n2, path := core.MustPass(fn, ret.Block(), core.NilGuard(pred))
+			r.Check(ok2 && n2 > 0, "C13.PARSE", fnm+"#whole-document-decode", ret.Pos(), "the answer is returned only after json.Unmarshal of the whole text into this value succeeded", "the provider's answer is returned without a successful json.Unmarshal of the whole text ("+core.FmtPath(path)+"): a streaming decode accepts a passing object followed by arbitrary trailing data")
+		}
+	}
+	r.Floor("C13.PARSE", "success returns of the answer parser (string → (LLMResult, error))", n, 1)
+	// no streaming decoder anywhere on the audit path's answer handling
+	for _, fn := range p.FuncsIn("internal/llm") {
+		core.InstrsOf(fn, func(in ssa.Instruction) {
+			if c := core.CallOf(in); c != nil && core.CalleeName(c) == "(*encoding/json.Decoder).Decode" {
+				t := core.Deref(core.Unwrap(c.Args[1]).Type())
+				if core.IsNamed(t, modelsPath(p), "LLMResult") || core.IsNamed(t, modelsPath(p), "SentinelResponse") {
+					more := false
+					core.InstrsOf(fn, func(in2 ssa.Instruction) {
+						if c2 := core.CallOf(in2); c2 != nil && (core.CalleeName(c2) == "(*encoding/json.Decoder).More" || core.CalleeName(c2) == "(*encoding/json.Decoder).Token") {
+							more = true
+						}
+					})
+					r.Check(more, "C13.PARSE", core.FuncName(fn)+"#streaming-decode", in.Pos(), "streaming decode is followed by a trailing-data test", "a verdict-bearing answer is decoded with Decoder.Decode and no trailing-data test: text after the first JSON value is ignored")
+				}
+			}
+		})
+	}
 }
 
 func c13HTTP(r *core.Run) {
